@@ -928,7 +928,7 @@ pub fn c14(ctx: &mut Ctx) {
                 }
                 2 => {
                     // any error that is not a SignatureError — a custom type, a bare io::Error of any kind, a string
-                    c.answer = Answer::Err(if rng.chance(1, 2) { ProvErr::Foreign } else { ProvErr::ForeignOther(*rng.pick(&FOREIGN_OTHER)) });
+                    c.answer = Answer::Err(if rng.chance(1, 2) { ProvErr::Foreign } else { ProvErr::ForeignOther(*rng.pick(&FOREIGN_OTHER[..10])) });
                     expect = Expect::Refuse(Some("InternalServiceError"));
                 }
                 3 => {
@@ -938,7 +938,7 @@ pub fn c14(ctx: &mut Ctx) {
                     calls = 0;
                 }
                 _ => {
-                    c.ready_err = Some(if rng.chance(1, 2) { ProvErr::Foreign } else { ProvErr::ForeignOther(*rng.pick(&FOREIGN_OTHER)) });
+                    c.ready_err = Some(if rng.chance(1, 2) { ProvErr::Foreign } else { ProvErr::ForeignOther(*rng.pick(&FOREIGN_OTHER[..10])) });
                     expect = Expect::Refuse(Some("InternalServiceError"));
                     calls = 0;
                 }
@@ -1428,6 +1428,9 @@ fn check_passthrough(ctx: &mut Ctx, done: Vec<Done>) {
         }
         if !r.extension_kept {
             bad.push("request extensions lost".into());
+        }
+        if r.extensions_len != 1 {
+            bad.push(format!("request extensions: {} values returned, 1 submitted", r.extensions_len));
         }
         if r.headers != submitted_headers {
             bad.push("headers".into());
